@@ -109,6 +109,10 @@ func listenD(depth int, sync bool) DecorSpec {
 	return DecorSpec{Listen: true, Depth: depth, Sync: sync, Widths: []int{2, 4}}
 }
 
+func listenReadD() DecorSpec {
+	return DecorSpec{Listen: true, ListenReads: true, Widths: []int{3}}
+}
+
 func c14Programs(tier string) []*Spec {
 	var out []*Spec
 	for _, rf := range []string{"auto", "manual", "none"} {
@@ -121,6 +125,9 @@ func c14Programs(tier string) []*Spec {
 					sp := &Spec{Name: fmt.Sprintf("c14-%s-%s-n%d", how, variant, n), Refresh: rf, Q: -1, Notifier: true}
 					for i := 0; i < n; i++ {
 						bs := BarSpec{Total: 3, Pre: []DecorSpec{listenD(i, true)}, App: []DecorSpec{listenD(2+i, false), {Sync: true, Wrap: "both", Widths: []int{3}}}}
+						if variant == "progress" && i == 0 {
+							bs.App = append(bs.App, listenReadD())
+						}
 						if variant == "idle" && i == n-1 {
 							bs.Total = 0 // a bar of unknown total that nobody touches: ended only by the cancellation
 						}
@@ -228,6 +235,29 @@ func init() {
 			}
 			for _, sp := range c16Programs(tier) {
 				items = append(items, specItems("C16", sp, bound, allStrats, nil, func(sp *Spec, x *X, res *mcrt.Result) (string, string) {
+					if x.WaitStep == 0 {
+						return "wait-not-returned", "Progress.Wait did not return"
+					}
+					if x.EventCount("leak") > 0 {
+						return "leak", strings.Join(x.Notes, "; ")
+					}
+					return "", ""
+				})...)
+			}
+			for _, rf := range []string{"auto", "manual"} {
+				// the terminal goes away: the size query fails in the next cycle
+				sp := &Spec{Name: "c16-termsize", Refresh: rf, Q: -1, Pty: true, TermW: 30, TermH: 6, Notifier: true}
+				sp.Bars = []BarSpec{{Total: 5, Pre: []DecorSpec{syncD(2)}}, {Total: 5, Pre: []DecorSpec{syncD(3)}}}
+				sp.Main = []Op{{K: "add", B: 0}, {K: "add", B: 1}}
+				ops := []Op{{K: "incr", B: 0, N: 1}, {K: "closepty"}}
+				if rf == "manual" {
+					ops = append(ops, Op{K: "refresh"}, Op{K: "refresh"})
+				}
+				sp.Clients = [][]Op{ops}
+				items = append(items, specItems("C16", sp, 1, []int{mcrt.StratFIFO, mcrt.StratNewest}, []string{"fault:termsize"}, func(sp *Spec, x *X, res *mcrt.Result) (string, string) {
+					if x.EventCount("pty-unavailable") > 0 {
+						return "", ""
+					}
 					if x.WaitStep == 0 {
 						return "wait-not-returned", "Progress.Wait did not return"
 					}
